@@ -135,7 +135,7 @@ def _setup(b, case):
     I.call(I.getattr_(cs, 'put_variable'), [b.sym('str', 'var'), b.sym('int', 'varval')], {})
     I.call(I.getattr_(cs, 'new_frame'), [], {})
     I.call(I.getattr_(cs, 'enter_loop'), [], {})
-    m.attrs['_vm_math'].attrs['_eval_stack'].attrs['_stack'].items.append(b.sym('int', 'stale_operand'))
+    b.I.getattr_(m.attrs['_vm_math'].attrs['_eval_stack'], '_stack').items.append(b.sym('int', 'stale_operand'))
     b.I.getattr_(m.attrs['_vm_io'], '_unnamed').items.append(b.sym('int', 'pending_output'))
     m.attrs['_keep_running'] = b.sym('bool', 'keep_running')
     m.attrs['_enable_pause'] = b.sym('bool', 'enable_pause')
